@@ -260,7 +260,8 @@ class Program:
             f = self.lookup_method(c, name)
             if f is not None and f not in seen:
                 seen.append(f)
-        return seen
+        concrete = [f for f in seen if not is_abstract(f)]
+        return concrete or seen
 
     def resolve_import(self, modname, local):
         """What a module-level name bound by an import refers to."""
@@ -287,6 +288,17 @@ class Program:
                     return ("const", frm, name)
             return ("ext", "catii.%s.%s" % (frm, name))
         return ("ext", "%s.%s" % (frm, name))
+
+
+def is_abstract(fi):
+    """Body is (docstring +) `raise NotImplementedError`."""
+    body = [b for b in fi.node.body if not (isinstance(b, ast.Expr) and isinstance(b.value, ast.Constant))]
+    if len(body) != 1 or not isinstance(body[0], ast.Raise):
+        return False
+    exc = body[0].exc
+    if isinstance(exc, ast.Call):
+        exc = exc.func
+    return isinstance(exc, ast.Name) and exc.id == "NotImplementedError"
 
 
 def loc(fi, node=None):
